@@ -36,6 +36,7 @@ class TLCResult:
         self.cmd = ""
         self.coverage = {}          # action name -> (distinct, generated) when -coverage was on
         self.deadlock = False
+        self.truncated = False      # stopped after VIOL_CAP reported violations
 
     @property
     def ok(self):
@@ -124,6 +125,9 @@ def extract_tuples(text, tag):
     return res
 
 
+VIOL_CAP = 40
+
+
 def run_tlc(module, cfg, env=None, workers=16, timeout=600, mode="bfs", extra=(), name=None,
             coverage=False, cont=False, deadlock=False, heap="6g", keep=False, simulate=None):
     """module: name without .tla in /verif/spec; cfg: path to cfg file (absolute or in spec/).
@@ -156,15 +160,36 @@ def run_tlc(module, cfg, env=None, workers=16, timeout=600, mode="bfs", extra=()
     r = TLCResult()
     r.cmd = " ".join(cmd)
     t0 = time.time()
-    try:
-        p = subprocess.run(cmd, cwd=SPEC, env=e, stdout=subprocess.PIPE, stderr=subprocess.STDOUT,
-                           timeout=timeout, text=True, errors="replace")
-        out = p.stdout
-        rc = p.returncode
-    except subprocess.TimeoutExpired as ex:
-        out = (ex.stdout or b"")
-        if isinstance(out, bytes):
-            out = out.decode("utf8", "replace")
+    # the output is read as it comes: with -continue every violation makes TLC print a trace under a global lock, so a
+    # tree that breaks a clause on thousands of states would keep TLC busy for an hour; after VIOL_CAP reported
+    # violations the run is stopped (the verdict is settled, the first violations are what the replay files need)
+    import threading
+    p = subprocess.Popen(cmd, cwd=SPEC, env=e, stdout=subprocess.PIPE, stderr=subprocess.STDOUT, text=True, errors="replace")
+    lines, nviol = [], [0]
+
+    def pump():
+        for line in p.stdout:
+            lines.append(line)
+            if "QVVIOL" in line:
+                nviol[0] += 1
+    th = threading.Thread(target=pump, daemon=True)
+    th.start()
+    timed_out = False
+    while p.poll() is None:
+        if time.time() - t0 > timeout:
+            timed_out = True
+            p.kill()
+            break
+        if cont and nviol[0] >= VIOL_CAP:
+            r.truncated = True
+            p.kill()
+            break
+        time.sleep(0.05)
+    p.wait()
+    th.join(timeout=10)
+    out = "".join(lines)
+    rc = p.returncode
+    if timed_out and nviol[0] == 0:
         r.stdout = out
         r.wall = time.time() - t0
         if not keep:
@@ -207,8 +232,8 @@ def run_tlc(module, cfg, env=None, workers=16, timeout=600, mode="bfs", extra=()
     if coverage:
         for mm in _RE_COV.finditer(out):
             r.coverage[mm.group(1) + "@" + mm.group(2)] = (int(mm.group(7)), int(mm.group(8)))
-    if not r.completed and not r.violated and not r.deadlock and not r.errors:
+    if not r.completed and not r.violated and not r.deadlock and not r.errors and not r.viol_lines:
         raise MachineryError("TLC gave no verdict (rc=%s): %s\n%s" % (rc, r.cmd, out[-3000:]))
-    if r.errors and not r.violated:
+    if r.errors and not r.violated and not r.viol_lines:
         raise MachineryError("TLC error: %s\n%s\n%s" % (r.errors[:3], r.cmd, out[-3000:]))
     return r
